@@ -4,6 +4,7 @@ package main
 
 import (
 	"fmt"
+	"go/token"
 	"go/types"
 	"strings"
 )
@@ -113,6 +114,7 @@ type Cell struct {
 	Name string
 	Ty   types.Type
 	id   int
+	Pos  token.Pos // declaration position of a source-named local
 }
 
 var cellCtr int
